@@ -543,6 +543,16 @@ def conc_corpus():
     ]
 
 
+def conc_fault_corpus():
+    """model-free only: concurrency combined with an injected obstacle (a blob whose deletion fails,
+    checkpoints that fail).  The failing call may return an error; nothing else may go wrong."""
+    f = " ".join(["1"] * 4 + ["2"] * 22 + ["1"] * 6)
+    return [
+        f"conc corpus_undeletable\ncfg kt=bytes n=100\nsetup put 6b31 58585858\nundeletable 58585858\nthread 1 put 6b33 5959\nthread 2 put 6b31 5959\nthread 2 remove 6b31\nfsched {f}\nend\n",
+        "conc corpus_undeletable_free\ncfg kt=bytes n=100\nsetup put 6b31 58585858\nundeletable 58585858\nthread 1 put 6b33 5959\nthread 2 put 6b31 5959\nthread 2 remove 6b31\nthread 3 get 6b33\nend\n",
+        f"conc corpus_blockckpt\ncfg kt=bytes n=1\nsetup put 6b31 58585858\nblockckpt\nthread 1 put 6b33 5959\nthread 2 put 6b32 5959\nthread 2 remove 6b32\nfsched {f}\nend\n",
+    ]
+
 
 # ------------------------------------------------------------------ K9: handle life cycle / racing opens
 def race_cases(rng: random.Random, n: int):
